@@ -140,7 +140,21 @@ where
     if cost_to_free == 0 {
       return (Vec::new(), 0);
     }
-    self.state.lock().main.evict_items(cost_to_free, self.main_prot_capacity)
+    let mut state = self.state.lock();
+    let (mut victims, mut freed) = state.main.evict_items(cost_to_free, self.main_prot_capacity);
+    // The admission window holds resident entries too. When the main segments cannot free
+    // enough (small capacities, many shards), take the oldest window entries as well;
+    // otherwise the cache stays over capacity with nothing evictable.
+    while freed < cost_to_free {
+      match state.window.pop_back() {
+        Some((key, cost)) => {
+          freed += cost;
+          victims.push(key);
+        }
+        None => break,
+      }
+    }
+    (victims, freed)
   }
 
   fn clear(&self) {
